@@ -9,6 +9,7 @@ import (
 	"strings"
 	"time"
 
+	"go.sia.tech/core/consensus"
 	"go.sia.tech/core/gateway"
 	rhp2 "go.sia.tech/core/rhp/v2"
 	rhp3 "go.sia.tech/core/rhp/v3"
@@ -555,6 +556,22 @@ func buildGateway(t *sim.Tape) []gwExchange {
 		func() gateway.Object { return new(gateway.RPCRelayV2BlockOutline) },
 		func() gateway.Object { return new(gateway.RPCRelayV2TransactionSet) },
 	}
+	if t.Chance(1, 40) {
+		// a block of exactly the maximum weight, relayed in full: the heaviest
+		// outline the consensus rules allow must fit the relay's own limit
+		var cs consensus.State
+		txn := types.V2Transaction{ArbitraryData: []byte{1}}
+		base := cs.V2TransactionWeight(txn)
+		txn.ArbitraryData = sim.HashBytes("heavy", 1, 2, int(cs.MaxBlockWeight()-base)+1)
+		if cs.V2TransactionWeight(txn) == cs.MaxBlockWeight() {
+			blk := types.Block{Timestamp: time.Unix(1e9, 0), MinerPayouts: []types.SiacoinOutput{{Value: types.Siacoins(1)}}, V2: &types.V2BlockData{Height: 5, Transactions: []types.V2Transaction{txn}}}
+			req := &gateway.RPCRelayV2BlockOutline{Block: gateway.OutlineBlock(blk, nil, nil)}
+			ex := gwExchange{name: "RPCRelayV2BlockOutline(block of maximum weight)", obj: req, resp: new(gateway.RPCRelayV2BlockOutline)}
+			if guardPanic(func() { ex.reqEnc, ex.respEnc = gwReqBytes(req), gwRespBytes(ex.resp) }) == "" {
+				return []gwExchange{ex}
+			}
+		}
+	}
 	n := t.Range(1, 4)
 	for i := 0; i < n; i++ {
 		m := mk[t.Choose(len(mk))]
@@ -713,6 +730,9 @@ func runGateway(s *Session, exs []gwExchange, mismatch string, addrLen [2]int) {
 			}
 			if gateway.VerifMaxResponseLen(ex.obj) > 0 && !bytes.Equal(gwRespBytes(got), ex.respEnc) {
 				e.violate("C19", "gateway-object-altered", fmt.Sprintf("exchange %d: %s response decoded to a different object than the one written", i, ex.name))
+			}
+			if strings.Contains(ex.name, "maximum weight") {
+				e.inc("gateway.heaviest-outline-delivered")
 			}
 			e.logf("ex %d %s response ok", i, ex.name)
 			st.Close()
